@@ -2,6 +2,7 @@
 EXTENDS Lerp, TLC
 CONSTANTS Lo, Hi, D
 VARIABLES a, b
+LoSigned == -128
 Init == a \in Lo..Hi /\ b \in Lo..Hi
 Next == UNCHANGED <<a, b>>
 Spec == Init /\ [][Next]_<<a, b>>
